@@ -22,8 +22,9 @@ CLAIMED = {
              'G=H-S and F=U-S incl. entropy of elements; that imaginary modes are dropped/substituted and every '
              'cached field is refreshed by the setters; that every documented point-group label resolves to its '
              'documented symmetry number.',
-        note=STATIC_NOTE + 'Not decided: invariance of geometry-derived parameters under rigid motions and atom '
-             'permutations (ASE numerics); LSR/BEP energies beyond identities; IEEE rounding. pmutt.constants is '
+        note=STATIC_NOTE + 'Geometry from a structure: the collinearity classification is decided on a finite set '
+             'of angles around the two thresholds; ASE\'s own angle and moment-of-inertia numerics under rigid motions '
+             'are not decided; LSR/BEP energies beyond identities; IEEE rounding. pmutt.constants is '
              'modelled as verified by C12.',
         ref='DESIGN.md section 4 C01'),
     'C02': dict(
@@ -78,7 +79,8 @@ CLAIMED = {
              'by its normalisation factor (times RT iff units), that the arg-min runs over the reactions at each grid '
              'point in both the 1-D and 2-D scans (1-3 reactions, 1-4 x 1-3 grids), and, for every ordering of the state '
              'energies of sequences of 1-3 steps with/without transition states and network paths of 2-4 states, that '
-             'the energy span is highest minus lowest plus last minus first iff the highest state precedes the lowest.',
+             'the energy span is highest minus lowest plus last minus first iff the highest state precedes the lowest, '
+             'and that a Network built by its own constructor keeps every state\'s own species and coefficients.',
         note=STATIC_NOTE + 'NaN handling and ties are not decided; bounded to the enumerated sizes (code uniform in them).',
         ref='DESIGN.md section 4 C19'),
     'C20': dict(
